@@ -1570,6 +1570,7 @@ package main
 //@   trusted
 //@   modifies maps
 //@   panics may
+//@   ensures inferred: inferred_from(result, expr)
 //@   note abstract: type inference of one expression (unification over the resolver's dictionaries)
 
 //@ func scDefVar
@@ -1581,9 +1582,16 @@ package main
 //@   note abstract: defines a variable in the innermost dictionary of the scope
 
 //@ func parseLetOneVarDef
-//@   props C06
+//@   props C06 C03 C09
 //@   param pExpr: like parseExpr(_, $0)
 //@   modifies maps glob:wg glob:vardefs
+//@   ghost R0 Expr               -- the right-hand side as the expression parser returned it
+//@   ghost LB int                -- the definition log right after the right-hand side is parsed
+//@   at after call pExpr#0: R0 = ret0.E1
+//@   at after call pExpr#0: LB = glob(vardefs)
+//@   ensures C03 C09 rhs-is-the-inferred-expression: inferred_from(result.E1.Rhs, R0)
+//@   ensures C03 C09 variable-typed-from-the-inferred-rhs: result.E1.Lvar.Ftype == exprtype(result.E1.Rhs)
+//@   ensures C03 C09 variable-defined-in-the-current-scope: glob(vardefs) == def_var(LB, ps.scope, result.E1.Lvar.Name, result.E1.Lvar)
 //@   requires live: live(ps)
 //@   requires offside-stack-non-empty: len(ps.offsideCol) >= 1
 //@   rec-group expr
@@ -1697,7 +1705,7 @@ package main
 //@   requires live: live(ps)
 //@   ensures C07 body-in-a-child-scope: scparent(arg(pBlock, old(calls(pBlock))).scope) == ps.scope && arg(pBlock, old(calls(pBlock))).scope != ps.scope
 //@   ensures C07 payload-variable-only-in-the-child-scope: (result.E1.UnionPattern.VarName == "" || result.E1.UnionPattern.VarName == "_") ==> LB == old(glob(vardefs))
-//@   ensures C07 payload-variable-in-the-child-scope: result.E1.UnionPattern.VarName != "" && result.E1.UnionPattern.VarName != "_" ==> exists v Var :: {def_var(old(glob(vardefs)), arg(pBlock, old(calls(pBlock))).scope, result.E1.UnionPattern.VarName, v)} v.Name == result.E1.UnionPattern.VarName && LB == def_var(old(glob(vardefs)), arg(pBlock, old(calls(pBlock))).scope, result.E1.UnionPattern.VarName, v)
+//@   ensures C07 C09 payload-variable-in-the-child-scope: result.E1.UnionPattern.VarName != "" && result.E1.UnionPattern.VarName != "_" ==> exists v Var :: {def_var(old(glob(vardefs)), arg(pBlock, old(calls(pBlock))).scope, result.E1.UnionPattern.VarName, v)} v.Name == result.E1.UnionPattern.VarName && LB == def_var(old(glob(vardefs)), arg(pBlock, old(calls(pBlock))).scope, result.E1.UnionPattern.VarName, v)
 //@   ensures C07 scope-restored: result.E0.scope == ps.scope
 //@   rec-group expr
 //@   decreases lex(rem(ps), 13)
